@@ -99,7 +99,9 @@ fn forgeries(auth: &WMessage, n_players: usize, payloads: &[Vec<u8>]) -> Vec<(St
     let frame_size = codec::decode(&[], &inp.bytes).ok().and_then(|f| f.first().map(Vec::len)).unwrap_or(1);
     // a payload that decodes to >= 1 frames, all of the right size, is a well-formed packet and
     // indistinguishable from authentic traffic: not a forgery in the sense of the property
-    let well_formed = |b: &[u8]| codec::decode(&[], b).map(|f| !f.is_empty() && f.iter().all(|x| x.len() == frame_size)).unwrap_or(false);
+    // (an empty sequence of frames is a valid encoding too: the pinned suite asserts that round
+    // trip; such a packet carries an acknowledgement and statuses only)
+    let well_formed = |b: &[u8]| codec::decode(&[], b).map(|f| f.iter().all(|x| x.len() == frame_size)).unwrap_or(false);
     let mk = |i: WInput| WMessage { magic: auth.magic, body: WBody::Input(i) };
     for cnt in [0usize, n_players.saturating_sub(1), n_players + 1, 255] {
         let mut i = inp.clone();
@@ -146,9 +148,48 @@ fn forgeries(auth: &WMessage, n_players: usize, payloads: &[Vec<u8>]) -> Vec<(St
     ] {
         let mut i = inp.clone();
         i.bytes = reencode(inp, f);
-        out.push((name.to_owned(), mk(i)));
+        out.push((name.to_owned(), mk(i.clone())));
+        // the same wrong-size frames in a packet whose other fields would do damage if any part of
+        // it were acted upon
+        if name == "frame-size-s+1" || name == "frame-size-0" {
+            for (fname, g) in field_damage(n_players) {
+                let mut j = i.clone();
+                g(&mut j);
+                out.push((format!("{name}+{fname}"), mk(j)));
+            }
+        }
+    }
+    // an undecodable payload together with fields that would do damage if the packet were only
+    // partly discarded: an acknowledgement of everything, every player reported as disconnected,
+    // a disconnect request
+    for p in [vec![0x80u8], vec![0xFF], vec![0x06, 0x01], vec![0x02, 0x01], vec![0xFD, 0xFF, 0xFF, 0x7F]] {
+        // only payloads that really are invalid: not decodable at all, or frames of a wrong size
+        // (an empty sequence of frames is a valid encoding, such a packet is well-formed)
+        let invalid = match codec::decode(&[], &p) {
+            Err(_) => true,
+            Ok(f) => f.iter().any(|x| x.len() != frame_size),
+        };
+        if !invalid {
+            continue;
+        }
+        for (fname, g) in field_damage(n_players) {
+            let mut i = inp.clone();
+            i.bytes = p.clone();
+            g(&mut i);
+            out.push((format!("payload={p:02x?}+{fname}"), mk(i)));
+        }
     }
     out
+}
+
+type FieldChange = Box<dyn Fn(&mut WInput)>;
+
+fn field_damage(n_players: usize) -> Vec<(&'static str, FieldChange)> {
+    vec![
+        ("ack-everything", Box::new(|i: &mut WInput| i.ack_frame = 1_000_000) as FieldChange),
+        ("all-players-reported-disconnected", Box::new(move |i: &mut WInput| i.peer_connect_status = vec![WConn { disconnected: true, last_frame: 0 }; n_players])),
+        ("disconnect-requested", Box::new(|i: &mut WInput| i.disconnect_requested = true)),
+    ]
 }
 
 fn foreign_kinds(auth_magic: u16) -> Vec<(String, WMessage)> {
